@@ -103,6 +103,29 @@ Example C14_on_quit_held_rejected :
      EEnd (Returned false) 2 1] = false.
 Proof. vm_compute. reflexivity. Qed.
 
+(* a processor calls the_loop.switch(handle 1) directly inside a frame: the
+   rest of the frame still runs the processors of world 1, the next iteration
+   processes world 2 with the exact delta *)
+Definition direct_case : C14_case :=
+  {| c_nps := [2%nat; 1%nat];
+     c_ops :=
+       [ top0;
+         (OStart [fr 0 (ADirect 1 false false); fr 5 ANormal] EndQuit [],
+          [EClock 0 1 0; EProc 1 0%nat 0; EAct OProc (ADirect 1 false false) 1 0;
+           ELoad 1 2; EEv 2 (VLoad 1 2); EProc 1 1%nat 0;
+           EClock 5 2 1; EProc 2 0%nat 5; EClockEnd EndQuit 2 1; EEnd (Returned false) 2 1]) ] |}.
+Example C14_direct_switch_holds :
+  wf_b direct_case = true /\ accepts direct_case = true /\ holds14_b direct_case = true.
+Proof. vm_compute. auto. Qed.
+(* a loop that keeps calling the process method of the world it started with *)
+Example C14_stale_world_processed_rejected :
+  start14 [2%nat; 1%nat]
+    [EClock 0 1 0; EProc 1 0%nat 0; EAct OProc (ADirect 1 false false) 1 0;
+     ELoad 1 2; EEv 2 (VLoad 1 2); EProc 1 1%nat 0;
+     EClock 5 2 1; EProc 1 0%nat 5; EProc 1 1%nat 5; EClockEnd EndQuit 2 1;
+     EEnd (Returned false) 2 1] = false.
+Proof. vm_compute. reflexivity. Qed.
+
 (* logs that violate the property are rejected by the checker: a stale
    timestamp after a start that ended by an exception (first dt = 16) ... *)
 Example C14_stale_timestamp_rejected :
